@@ -323,6 +323,15 @@ def _corpus_families(big):
                         "cs": [{"k": "MinimumTrials", "n": 4}]}})
             out.append({"factors": [col, src, wf], "block": {"k": "cross", "design": [0, 1, 2], "crossing": [0], "rcc": True,
                         "cs": [{"k": "MinimumTrials", "n": 4}, {"k": "AtMostKInARow", "n": 2, "f": 2, "l": 0}]}})
+    # the same over a weighted uncrossed factor in blocks small enough to exhaust (2-3 trials)
+    srcw = _sf(1, ["x", "y"], [2, 1])
+    for width, start in ((1, 1), (2, 0), (1, 2)):
+        size = 3 ** width
+        tbl = [1 if (i % 3) == 1 else 0 for i in range(size)]
+        wf = {"id": 2, "name": "f2", "window": {"deps": [1], "width": width, "stride": 1, "start": start, "kind": "window"},
+              "levels": [{"name": "A", "w": 1, "table": tbl}, {"name": "B", "w": 1, "table": [1 - x for x in tbl]}]}
+        for cs in ([], [{"k": "MinimumTrials", "n": 3}], [{"k": "AtMostKInARow", "n": 1, "f": 2, "l": 0}]):
+            out.append({"factors": [col, srcw, wf], "block": {"k": "cross", "design": [0, 1, 2], "crossing": [0], "rcc": True, "cs": cs}})
     # early explicit starts whose level depends on *whether* the oldest window position exists (None before trial 0),
     # for an implied factor, a constrained one and a crossed one
     src2 = _sf(1, ["x", "y"])
@@ -392,6 +401,28 @@ def _corpus_families(big):
     for extra in ([], [{"k": "MinimumTrials", "n": 6}]):
         out.append({"factors": [wc2, sz2, loud], "block": {"k": "cross", "design": [0, 1, 2], "crossing": [0, 1], "rcc": False,
                     "cs": [{"k": "Exclude", "f": 2, "l": 0}] + extra}})
+    # Repeat of a block with a preamble (Transition in the crossing) and constraints given to the block: the
+    # repetition windows overlap by the preamble, [0,5) and [4,9)
+    colr, shp = _sf(0, ["r", "g"]), _sf(1, ["circle", "square"])
+    trr = _transition(3, 0, 2)
+    for cs in ([{"k": "Pin", "idx": -1, "f": 1, "l": 0}], [{"k": "AtMostKInARow", "n": 1, "f": 1, "l": 0}],
+               [{"k": "Pin", "idx": -1, "f": 1, "l": 0}, {"k": "AtMostKInARow", "n": 1, "f": 1, "l": 0}],
+               [{"k": "ExactlyK", "n": 2, "f": 1, "l": 1}]):
+        out.append({"factors": [colr, shp, trr], "block": {"k": "repeat", "cs": [{"k": "MinimumTrials", "n": 9}],
+                    "b": {"k": "cross", "design": [0, 1, 3], "crossing": [0, 3], "rcc": True, "cs": cs}}})
+    # Nest whose outer block has an incomplete crossing (an excluded level / combination): outer trials x inner length
+    o3, ob, ins = _sf(0, ["a1", "a2", "a3"]), _sf(1, ["b1", "b2"]), _sf(10, ["s1", "s2"])
+    out.append({"factors": [o3, ins], "block": {"k": "nest", "cs": [], "align": None,
+                "outer": {"k": "cross", "design": [0], "crossing": [0], "rcc": False, "cs": [{"k": "Exclude", "f": 0, "l": 2}]},
+                "inner": {"k": "cross", "design": [10], "crossing": [10], "rcc": True, "cs": []}}})
+    bad_t = [0] * 9
+    bad_t[1 * 3 + 1] = 1
+    bad = {"id": 2, "name": "f2", "window": {"deps": [0, 1], "width": 1, "stride": 1, "start": None, "kind": "within"},
+           "levels": [{"name": "bad", "w": 1, "table": bad_t}, {"name": "ok", "w": 1, "table": [1 - x for x in bad_t]}]}
+    oa2 = _sf(0, ["a1", "a2"])
+    out.append({"factors": [oa2, ob, bad, ins], "block": {"k": "nest", "cs": [], "align": None,
+                "outer": {"k": "cross", "design": [0, 1, 2], "crossing": [0, 1], "rcc": False, "cs": [{"k": "Exclude", "f": 2, "l": 0}]},
+                "inner": {"k": "cross", "design": [10], "crossing": [10], "rcc": True, "cs": []}}})
     # MinimumTrials given to the Nest itself, not a multiple of the inner length (rounded up to whole inner runs)
     oa, isx = _sf(0, ["A1", "A2"]), _sf(10, ["s1", "s2", "s3"])
     for mt in (7, 10, 6, 5):
